@@ -21,7 +21,10 @@ def reference(spec, dates):
     a = spec["a"]
     n = len(dates)
     if a in ("RunDaily", "RunWeekly", "RunMonthly", "RunQuarterly", "RunYearly"):
-        kw = spec.get("kw", {})
+        kw = dict(spec.get("kw", {}))
+        # flags given by position follow the documented order: first date, end of period, last date
+        for name, val in zip(("run_on_first_date", "run_on_end_of_period", "run_on_last_date"), spec.get("args", [])):
+            kw[name] = val
         first = kw.get("run_on_first_date", True)
         end = kw.get("run_on_end_of_period", False)
         last = kw.get("run_on_last_date", False)
@@ -77,7 +80,9 @@ def judge(sim, plan):
             njudged += 1
             got = res[0]
             if got != ref[i]:
-                kw = inner.get("kw", {})
+                kw = dict(inner.get("kw", {}))
+                for name_, val_ in zip(("run_on_first_date", "run_on_end_of_period", "run_on_last_date"), inner.get("args", []) if family else []):
+                    kw[name_] = val_
                 flags = {"algo": a, "pos": "only" if n == 1 else ("first" if i == 0 else ("last" if i == n - 1 else "middle")), "end_mode": bool(kw.get("run_on_end_of_period", False)), "expected": ref[i]}
                 sim.violation("c12_calendar" if family else "c12_counting", "%s%r on %s (date #%d of %d): returned %r, the reference calendar says %r" % (a, inner.get("kw", inner.get("args", inner.get("dates", inner.get("date")))), dates[i], i, n, got, ref[i]), flags)
                 break
